@@ -34,7 +34,25 @@ Cfg_wrap16 == { [Cfg(1, <<>>, P_wrap(65535), NoAfter(P_wrap(65535)), 2) EXCEPT !
 Cfg_wrap8 == { [Cfg(1, <<>>, P_wrap(255), NoAfter(P_wrap(255)), 2) EXCEPT !.smod = 256] }
 \* the real code at the same distances (must hold)
 Cfg_far == { Cfg(1, <<>>, P_wrap(k), NoAfter(P_wrap(k)), 2) : k \in {255, 65535} }
-Cfg_quick == Cfg_far \cup
+\* a take with a STALE receipt has just compared the slot version (and failed) while the legitimate take of the
+\* slot's current round is about to compare it: a take that touches the version before it knows whether it owns
+\* the item (add / roll back) makes the legitimate one lose here
+StaleBeforeLegit == \E s \in Thr, g \in Thr :
+                       /\ pc[s] = "t_got" /\ L[s].rok = 0 /\ L[s].bid \in H.taken
+                       /\ pc[g] = "t_cas" /\ L[g].bid \notin H.taken /\ L[g].bid.value = L[s].bid.value
+NoStaleBeforeLegit == ~StaleBeforeLegit
+\* ... and the slot was finished and emplaced again (a plain store of the new round) after the stale take compared
+\* the version and before it returned: a roll-back would now land on the new round's version
+StaleAcrossEmplace == \E s \in Thr :
+                         /\ pc[s] = "t_got" /\ L[s].rok = 0 /\ L[s].bid \in H.taken
+                         /\ \E j \in DOMAIN H.emplaced : /\ j.value = L[s].bid.value /\ j \notin H.taken
+                                                          /\ LastVal(ms, SVer(j.value)) = j.version /\ L[s].seen < j.version
+NoStaleAcrossEmplace == ~StaleAcrossEmplace
+P_h1 == << <<EM(1)>>, <<TK(0)>>, <<TK(1)>> >>
+P_h2 == << <<EM(1)>>, <<TK(1), EM(2), TK(2)>>, <<TK(0), TK(1)>> >>
+Cfg_h1 == { Cfg(1, <<0>>, P_h1, << <<>>, <<1>>, <<1>> >>, 2) }
+Cfg_h2 == { Cfg(1, <<0>>, P_h2, << <<>>, <<1>>, <<1>> >>, 3) }
+Cfg_quick == Cfg_far \cup Cfg_h1 \cup Cfg_h2 \cup
              { Cfg(1, <<>>, P_race3, NoAfter(P_race3), 1),
                Cfg(1, <<>>, P_reuse, NoAfter(P_reuse), 2),
                Cfg(1, <<0>>, P_stale, NoAfter(P_stale), 3),
